@@ -555,14 +555,44 @@ class QuotientMod(Sub):
     min_nontrivial = 5000
     min_classes = 3
 
+    # pairs at which the float quotient rounds onto a whole number, and whole numbers beyond 2^53 against float divisors
+    PAIRS = [('0.8999999999999999', '0.3'), ('6.999999999999999', '0.7'), ('9007199254740991', '1.5'), ('9007199254740993', '1.0'),
+             ('9007199254740993', '0.5'), ('9007199254740993', '2.0'), ('9007199254740993', '3.0'), ('0.3', '0.1'), ('-0.8999999999999999', '0.3'),
+             ('2.6999999999999997', '0.9'), ('9007199254740995', '2.5'), ('1.0000000000000002', '0.1'), ('4.35', '0.05'), ('0.57', '0.01')]
+
     def cases(self, tier, unit):
         for fn in ('QUOTIENT', 'MOD'):
             for a in range(-48, 49):
                 for b in range(-48, 49):
                     yield [fn, a, b]
+            for i in range(len(self.PAIRS)):
+                yield [fn, 'pair', i]
 
     def check(self, env, case):
         fn, a, b = case
+        if a == 'pair':
+            sn, sd = self.PAIRS[b]
+            xv, xreads = parse_num(sn)
+            dv, dreads = parse_num(sd)
+            f = '%s(xn,xd)' % fn
+            o = env.evo(f, {'xn': xv, 'xd': dv})
+            env.nt()
+            env.note(fn + ':pair')
+            targets = []
+            for x in xreads:
+                for d in dreads:
+                    q = x / d
+                    t = (ffloor(q) if q >= 0 else fceil(q)) if fn == 'QUOTIENT' else x - d * ffloor(q)
+                    if t not in targets:
+                        targets.append(t)
+            r = getnum(o)
+            # the truncated quotient is a whole number: exactly; the remainder to a few units in the last place of the divisor
+            ok = r is not None and any((r == t) if fn == 'QUOTIENT' else abs(F(r) - t) <= abs(F(dv)) / 2 ** 50 for t in targets)
+            if not ok:
+                return fail('%s with number %s, divisor %s gives %r; expected %s (exact arithmetic on the operands, read as the doubles or '
+                            'as the decimals they are written as)' % (f, sn, sd, o, ' or '.join(str(show(t)) for t in targets)),
+                            [show(t) for t in targets], o)
+            return None
         x, d = F(a, 4), F(b, 4)
         xv = a // 4 if a % 4 == 0 else a / 4.0
         dv = b // 4 if b % 4 == 0 else b / 4.0
